@@ -518,6 +518,59 @@ def r9_memo(ctx, rep):
         rep.ob("no cache in the Markdown layer", True, "links are computed per conversion", "ford/_markdown.py", nontrivial=False)
 
 
+def r10_plain_references_survive_relurl(ctx, rep):
+    """A reference that cannot be resolved is rendered as `<a>name</a>` - an anchor element *without* `href` (every early
+    `return link` of convert_link).  Text containing such an element is later passed through the `relurl` filter (summaries of
+    type-bound procedures, declarations), which looks at the first `<a>` of the text: it must not require that element to have
+    an `href`, otherwise one misspelt [[reference]] in a binding's comment aborts the whole run with KeyError."""
+    py = ctx.py
+    cl = py.ifunc("FordLinkProcessor.convert_link")
+    ev = astq.trace(cl)
+    rets = [e for e in ev if e.kind == "return" and e.node.value is not None]
+    stores = [st for st in ast.walk(cl) if isinstance(st, ast.Assign) and any(
+        isinstance(t, ast.Subscript) and isinstance(t.slice, ast.Constant) and t.slice.value == "href" for t in st.targets)]
+    bare = [e for e in rets if not stores or e.node.lineno < min(s.lineno for s in stores)]
+    if not rets or not stores:
+        raise AnalysisError("convert_link: returns / href store not found")
+    rep.ob("convert_link: unresolved references are returned as elements without href", True,
+           f"{len(bare)} of {len(rets)} returns precede the href store", py.nloc(cl), nontrivial=False)
+    if not bare:
+        return
+    ru = py.ifunc("output.relative_url")
+    n = 0
+    for sub in ast.walk(ru):
+        if isinstance(sub, ast.Subscript) and isinstance(sub.slice, ast.Constant) and sub.slice.value == "href" and isinstance(sub.ctx, ast.Load):
+            n += 1
+            # where does the element come from?  `soup.find("a", href=True)` / `select_one("a[href]")` only yield elements with href
+            srcs = [sub.value] + astq.expand_locals(sub.value, ru)
+            selective = any(isinstance(c, ast.Call) and (any(k.arg == "href" for k in c.keywords) or any(
+                isinstance(a, ast.Constant) and isinstance(a.value, str) and "[href" in a.value for a in c.args))
+                for x in srcs for c in ast.walk(x))
+            # or the access is guarded by a test that mentions href
+            guarded = False
+            p = sub
+            while p is not ru and p in py.parents:
+                par = py.parents[p]
+                if isinstance(par, (ast.If, ast.IfExp)) and any(isinstance(k, ast.Constant) and k.value == "href" for k in ast.walk(par.test)):
+                    guarded = True
+                if isinstance(par, ast.Try) and p in par.body and any(
+                        h.type is None or "KeyError" in ast.unparse(h.type) for h in par.handlers):
+                    guarded = True
+                p = par
+            ok = selective or guarded
+            rep.ob("relative_url: the first <a> of a text need not have an href", ok,
+                   "only elements with href are considered" if ok else
+                   f"`{ast.unparse(sub)}` assumes that the first <a> element has an href; an unresolved [[reference]] is rendered as "
+                   f"`<a>name</a>`, so e.g. a misspelt reference in the comment of a type-bound procedure (whose summary goes "
+                   f"through relurl) raises KeyError and the run ends", py.nloc(sub))
+    uses_get = any(isinstance(c, ast.Call) and isinstance(c.func, ast.Attribute) and c.func.attr == "get" and c.args
+                   and isinstance(c.args[0], ast.Constant) and c.args[0].value == "href" for c in ast.walk(ru))
+    if n == 0 and not uses_get:
+        raise AnalysisError("relative_url: no access to the href of the first link found")
+    if n == 0:
+        rep.ob("relative_url: the first <a> of a text need not have an href", True, "href read with .get()", py.nloc(ru))
+
+
 RULES = [
     RuleSpec("C11.R6", r6_item_anchors, "[[owner:item]] targets: item anchors exist on the owner's page (shared with C09.R8)", floor=16),
     RuleSpec("C11.R1", r1_kinds, "documented kinds are the implemented kinds", floor=45),
@@ -528,4 +581,5 @@ RULES = [
     RuleSpec("C11.R8", r8_found_items_have_urls, "every entity find_child can hand out has a URL", floor=30),
     RuleSpec("C11.R7", r7_item_collections, "item collections searched by find_child are sequences", floor=5),
     RuleSpec("C11.R9", r9_memo, "no cached link element outlives the page it was made for (shared with C17.R7)", floor=1),
+    RuleSpec("C11.R10", r10_plain_references_survive_relurl, "an unresolved reference stays harmless in every filter it passes", floor=2),
 ]
